@@ -49,3 +49,4 @@ pub fn btree_range<'a, T: Types>(m: &'a BTreeMap<u64, LogData<T>>, from: u64, to
 /*+U64MAX:
 pub fn u64_max(a: u64, b: u64) -> (r: u64) ensures r == (if a >= b { a } else { b }) { if a >= b { a } else { b } }
 */
+pub fn u64_min(a: u64, b: u64) -> (r: u64) ensures r == (if a <= b { a } else { b }) { if a <= b { a } else { b } }
